@@ -180,10 +180,10 @@ def legacyAlias (v : Int × Int) : Option Str :=
 /-- `_manylinux.platform_tags(archs)` -/
 def manylinuxTags (cfg : LCfg) (archs : List Str) : List Str :=
   if !haveCompatibleAbi cfg archs then [] else
-  let tooOld : Int × Int := if archs.contains sX86_64 || archs.contains sI686 then (2, 4) else (2, 16)
   let cur := getGlibcVersion cfg.confstr cfg.ctypesVersion
   let maxList := cur :: (downFrom (cur.1 - 1) 1).map fun major => (major, lastGlibcMinor major)
   archs.flatMap fun arch =>
+    let tooOld : Int × Int := if arch == sX86_64 || arch == sI686 then (2, 4) else (2, 16)
     maxList.flatMap fun gmax =>
       let minMinor : Int := if gmax.1 == tooOld.1 then tooOld.2 else -1
       (downFrom gmax.2 minMinor).flatMap fun minor =>
